@@ -31,6 +31,7 @@ import (
 	"encoding/json"
 	"fmt"
 	"os"
+	"runtime"
 	"sort"
 	"strings"
 	"testing"
@@ -73,6 +74,9 @@ type c35Session struct {
 	rexpHi  time.Time
 	revoked bool
 	rotated bool
+	// classification by clock position (not by the clock), used only to decide what to generate
+	accessLive  bool
+	refreshLive bool
 }
 
 type c35Machine struct {
@@ -95,18 +99,20 @@ var (
 )
 
 type c35Pos struct {
-	name    string
-	elapsed func(ttl time.Duration) time.Duration
+	name        string
+	accessLive  bool
+	refreshLive bool
+	elapsed     func(ttl time.Duration) time.Duration
 }
 
 var c35Positions = []c35Pos{
-	{"just-issued", func(ttl time.Duration) time.Duration { return 0 }},
-	{"late-live", func(ttl time.Duration) time.Duration { return ttl - 10*time.Minute }},
-	{"expiring-now", func(ttl time.Duration) time.Duration { return ttl - time.Millisecond }}, // DESIGN: TTL of 1 ms, expired at issue
-	{"just-expired", func(ttl time.Duration) time.Duration { return ttl + time.Second }},
-	{"expired-5m", func(ttl time.Duration) time.Duration { return ttl + 5*time.Minute }},
-	{"expired-6d", func(ttl time.Duration) time.Duration { return 6 * 24 * time.Hour }},
-	{"refresh-expired", func(ttl time.Duration) time.Duration { return defaultRefreshTTL + time.Hour }},
+	{"just-issued", true, true, func(ttl time.Duration) time.Duration { return 0 }},
+	{"late-live", true, true, func(ttl time.Duration) time.Duration { return ttl - 10*time.Minute }},
+	{"expiring-now", false, true, func(ttl time.Duration) time.Duration { return ttl - time.Millisecond }}, // DESIGN: TTL of 1 ms, expired at issue
+	{"just-expired", false, true, func(ttl time.Duration) time.Duration { return ttl + time.Second }},
+	{"expired-5m", false, true, func(ttl time.Duration) time.Duration { return ttl + 5*time.Minute }},
+	{"expired-6d", false, true, func(ttl time.Duration) time.Duration { return 6 * 24 * time.Hour }},
+	{"refresh-expired", false, false, func(ttl time.Duration) time.Duration { return defaultRefreshTTL + time.Hour }},
 }
 
 // c35Now is the wall clock without the monotonic reading, i.e. what auth.go compares (time.Now().UTC()).
@@ -192,10 +198,20 @@ func (m *c35Machine) issue(rt *rapid.T, withRefresh bool) {
 		rt.Fatalf("HARNESS-ERROR the store issued a token string twice")
 	}
 	s := &c35Session{id: len(m.sess), kind: "token", pos: pos.name, access: access, refresh: refresh, user: user, role: role,
-		secret: m.cur, expLo: t0.Add(ttl), expHi: t1.Add(ttl)}
+		secret: m.cur, expLo: t0.Add(ttl), expHi: t1.Add(ttl), accessLive: pos.accessLive, refreshLive: withRefresh && pos.refreshLive}
 	if withRefresh {
 		s.kind = "session"
 		s.rexpLo, s.rexpHi = t0.Add(rttl), t1.Add(rttl)
+	}
+	if !pos.accessLive {
+		// "expiring-now" has a millisecond left when the call returns: let it pass, so that every later step sees
+		// an expired token and the case does not depend on how fast the next call starts (at most 1 ms of spinning).
+		for deadline := t1.Add(2 * time.Second); !c35Now().After(s.expHi); {
+			if c35Now().After(deadline) {
+				rt.Fatalf("HARNESS-ERROR the clock does not advance past the expiry of a token issued as expired")
+			}
+			runtime.Gosched()
+		}
 	}
 	m.sess = append(m.sess, s)
 	m.op("issue#%d(%s,%s,%s,%s)", s.id, s.kind, pos.name, user, role)
@@ -203,25 +219,29 @@ func (m *c35Machine) issue(rt *rapid.T, withRefresh bool) {
 	m.rec.Label("ops/issue")
 }
 
-// knownValidateClass names the listed known finding whose class ValidateToken(s.access) would fall into now
-// ("" when none). Classes of LISTED findings are removed from the generator by construction and counted;
-// while a finding is not listed its class stays in and a failure is a VIOLATION.
-func (m *c35Machine) knownValidateClass(s *c35Session, now time.Time) string {
-	maybeUnexpired := !now.After(s.expHi)
+// The choice of what to generate must not depend on the clock, or a failing case could not be replayed and
+// shrunk: sessions are therefore classified by the clock position they were issued at (accessLive: the access
+// token has at least ten minutes left; refreshLive: the refresh token has at least a day left). The oracle, in
+// contrast, uses the bracketed timestamps of each call.
+
+// knownValidateClass names the listed known finding whose class ValidateToken(s.access) falls into ("" when
+// none). Classes of LISTED findings are removed from the generator by construction and counted; while a finding
+// is not listed its class stays in and a failure is a VIOLATION.
+func (m *c35Machine) knownValidateClass(s *c35Session) string {
 	dead := s.revoked || s.rotated
 	switch {
-	case dead && s.secret == m.cur && maybeUnexpired && verifKnown("C35", c35SlugRevoked):
+	case dead && s.secret == m.cur && s.accessLive && verifKnown("C35", c35SlugRevoked):
 		return c35SlugRevoked // revoked / rotated away, but the signature alone still checks out
-	case !dead && s.secret != m.cur && maybeUnexpired && verifKnown("C35", c35SlugSecret):
+	case !dead && s.secret != m.cur && s.accessLive && verifKnown("C35", c35SlugSecret):
 		return c35SlugSecret // live session signed under a previous secret
 	}
 	return ""
 }
 
-// knownRefreshClass: a refresh of a live session whose access token is not definitely still valid.
-func (m *c35Machine) knownRefreshClass(s *c35Session, now time.Time) string {
+// knownRefreshClass: a refresh, with a live refresh token, of a session whose access token has expired.
+func (m *c35Machine) knownRefreshClass(s *c35Session) string {
 	dead := s.revoked || s.rotated
-	if !dead && !now.After(s.rexpHi) && !(now.Unix()+5 < s.expLo.Unix()) && verifKnown("C35", c35SlugRefresh) {
+	if !dead && s.refreshLive && !s.accessLive && verifKnown("C35", c35SlugRefresh) {
 		return c35SlugRefresh
 	}
 	return ""
@@ -230,8 +250,7 @@ func (m *c35Machine) knownRefreshClass(s *c35Session, now time.Time) string {
 // pick draws a session among those for which excluded() is "". prefer biases the draw towards a class that
 // matters for the property ("dead": revoked or rotated away, "fresh": neither and with a live access token,
 // "any"); the bias is itself a drawn value.
-func (m *c35Machine) pick(rt *rapid.T, withRefreshOnly bool, excluded func(*c35Session, time.Time) string, prefer ...string) *c35Session {
-	now := c35Now()
+func (m *c35Machine) pick(rt *rapid.T, withRefreshOnly bool, excluded func(*c35Session) string, prefer ...string) *c35Session {
 	var cand []*c35Session
 	removed := map[string]bool{}
 	for _, s := range m.sess {
@@ -239,7 +258,7 @@ func (m *c35Machine) pick(rt *rapid.T, withRefreshOnly bool, excluded func(*c35S
 			continue
 		}
 		if excluded != nil {
-			if slug := excluded(s, now); slug != "" {
+			if slug := excluded(s); slug != "" {
 				removed[slug] = true
 				continue
 			}
@@ -259,7 +278,7 @@ func (m *c35Machine) pick(rt *rapid.T, withRefreshOnly bool, excluded func(*c35S
 		var sub []*c35Session
 		for _, s := range cand {
 			dead := s.revoked || s.rotated
-			if (want == "dead" && dead) || (want == "fresh" && !dead && now.Unix()+5 < s.expLo.Unix()) {
+			if (want == "dead" && dead) || (want == "fresh" && !dead && s.accessLive) {
 				sub = append(sub, s)
 			}
 		}
@@ -300,6 +319,14 @@ func (m *c35Machine) validate(rt *rapid.T) {
 		m.used = true
 		if s.secret == m.cur && !tv0.After(s.expHi) {
 			m.lab("validate/dead-but-signature-valid")
+		}
+	}
+	// Safety net for the classes of listed findings: the generator removes them by clock position; should the
+	// clock nevertheless put a call inside one (an "expired" token not yet past its expiry), nothing is asserted.
+	if !tv0.After(s.expHi) && !s.accessLive {
+		if (dead && s.secret == m.cur && verifKnown("C35", c35SlugRevoked)) || (!dead && s.secret != m.cur && verifKnown("C35", c35SlugSecret)) {
+			m.rec.Exclude("timing-window")
+			return
 		}
 	}
 	switch {
@@ -551,7 +578,8 @@ func (m *c35Machine) refresh(rt *rapid.T) {
 	} else {
 		m.lab("refresh/ok-while-access-live")
 	}
-	n := &c35Session{id: len(m.sess), kind: "refreshed", pos: "refresh-of-" + s.pos, access: at, refresh: nrt, user: s.user, role: s.role, secret: m.cur}
+	n := &c35Session{id: len(m.sess), kind: "refreshed", pos: "refresh-of-" + s.pos, access: at, refresh: nrt, user: s.user, role: s.role, secret: m.cur,
+		accessLive: true, refreshLive: true} // "valid when issued"; a refresh that returns a dead token fails the case below
 	// the statement does not say which lifetime the new tokens get; the window covers "inherit" and "fresh TTL"
 	n.expLo, n.expHi = c35MinT(s.expLo, t0.Add(m.cfgTTL)), c35MaxT(s.expHi, t1.Add(m.cfgTTL))
 	n.rexpLo, n.rexpHi = c35MinT(s.rexpLo, t0.Add(defaultRefreshTTL)), c35MaxT(s.rexpHi, t1.Add(defaultRefreshTTL))
